@@ -96,7 +96,7 @@ def gen_cond(rnd, env, depth):
     return f'not ({gen_cond(rnd, env, depth - 1)})'
 
 
-STATIC_TAGS = ['Biz', 'ride', 'FOOD', 'x-y', 'recurring', 'Ride']
+STATIC_TAGS = ['Biz', 'ride', 'FOOD', 'x-y', 'recurring', 'Ride', "kid's", "O'Hare", 'say "hi', "rock'n'roll", 'fee (atm)', '5" sub']
 DYNAMIC_TAGS = ['{field.memo}', '{source}', '{extract("(\\\\d+)")}', '{extract(field.memo, "REF (\\\\w+)")}', '{[r.kind for r in extra]}',
                 '{nosuchvar}', '{ }', '{field.missing}', '{amount > 100}', '{split(" ", 0)}', '{lowercase(source)}',
                 '{[r.kind for r in extra if r.n > 2]}']
@@ -153,12 +153,17 @@ TF_POOL = [('field.description', 'regex_replace(field.description, "^APLPAY\\\\s
            ('field.description', 'regex_replace(field.description, "(", "")')]
 
 
-def gen_rules_file(rnd, nrules=None, tag_only_p=0.4, tf_p=0.3):
+def gen_rules_file(rnd, nrules=None, tag_only_p=0.4, tf_p=0.3, dup_names_p=0.0):
     vs = rnd.sample(VAR_POOL, rnd.choice([0, 0, 1, 2]))
     names = [v[0].lower() for v in vs if v[0] != 'bad'] if vs else []
     tfs = [rnd.choice(TF_POOL) for _ in range(rnd.choice([1, 2]))] if rnd.random() < tf_p else []
     n = nrules or rnd.choice([1, 2, 3, 3, 4, 4, 5, 6, 7, 8])
-    return {'vars': vs, 'tfs': tfs, 'rules': [gen_rule(rnd, i, names, tag_only_p) for i in range(n)]}
+    rules = [gen_rule(rnd, i, names, tag_only_p) for i in range(n)]
+    if dup_names_p:
+        for i in range(1, n):
+            if rnd.random() < dup_names_p:      # several blocks under one [Name] (the name doubles as merchant display name)
+                rules[i]['name'] = rules[rnd.randrange(i)]['name']
+    return {'vars': vs, 'tfs': tfs, 'rules': rules}
 
 
 def render_rules(f):
@@ -233,6 +238,24 @@ def gen_txn(rnd, words=None):
             fld['code'] = rnd.choice(['X1', 'x1', 'Y2'])
     return {'d': gen_desc(rnd, words), 'a': a, 'date': dt, 'field': fld, 'source': rnd.choice([None, 'Amex', 'Chase', 'AMEX', '']),
             'location': rnd.choice([None, 'Seattle, WA'])}
+
+
+def with_neighbours(rnd, txns):
+    """Append, right behind the first transaction, copies of it that differ ONLY in a custom field / only in location /
+    only in source (and one exact duplicate): classified back to back in one load, each must get its own result."""
+    t = txns[0]
+    out = [t]
+    f2 = dict(t.get('field') or {})
+    f2['memo'] = rnd.choice([m for m in ['ref', 'REF abc123', 'Uber trip', 'GAS', ''] if m != f2.get('memo')])
+    out.append(dict(t, field=f2))
+    if rnd.random() < 0.5:
+        f3 = dict(f2)
+        f3['code'] = 'Y2' if f2.get('code') != 'Y2' else 'X1'
+        out.append(dict(t, field=f3))
+    out.append(dict(t, location='Portland, OR' if t.get('location') != 'Portland, OR' else None))
+    out.append(dict(t, source='Chase' if t.get('source') != 'Chase' else 'Amex'))
+    out.append(dict(t))
+    return out + txns[1:]
 
 
 # ---------------------------------------------------------------------------------------------------
@@ -337,12 +360,12 @@ def run_jobs(jobs, nproc=4, tag='engine'):
     return out
 
 
-def rules_job(f, txns, oracle=False, norm=False):
-    return {'kind': 'rules', 'text': render_rules(f), 'txns': txns, 'ds': DS, 'oracle': oracle, 'norm': norm}
+def rules_job(f, txns, oracle=False, norm=False, ds=DS):
+    return {'kind': 'rules', 'text': render_rules(f), 'txns': txns, 'ds': ds, 'oracle': oracle, 'norm': norm}
 
 
-def csv_job(f, txns, oracle=False):
-    return {'kind': 'csv', 'text': render_csv(f), 'txns': txns, 'ds': DS, 'oracle': oracle, 'tfs': f['tfs']}
+def csv_job(f, txns, oracle=False, ds=DS):
+    return {'kind': 'csv', 'text': render_csv(f), 'txns': txns, 'ds': ds, 'oracle': oracle, 'tfs': f['tfs']}
 
 
 # ---------------------------------------------------------------------------------------------------
@@ -727,9 +750,10 @@ def case_rnd(case, salt=0):
 
 def job_of(case, oracle=False, norm=True):
     """case = {'kind': 'rules'|'csv', 'file': generator dict, 'txns': [...]}"""
+    ds = case.get('ds', DS)        # None: no supplemental data sources (list-valued {.. for r in extra} tags are then unevaluable)
     if case['kind'] == 'rules':
-        return rules_job(case['file'], case['txns'], oracle=oracle, norm=norm)
-    return csv_job(case['file'], case['txns'], oracle=oracle)
+        return rules_job(case['file'], case['txns'], oracle=oracle, norm=norm, ds=ds)
+    return csv_job(case['file'], case['txns'], oracle=oracle, ds=ds)
 
 
 def run_two_phase(cases, variants_fn, oracle=True, norm=True, tag='engine'):
@@ -810,12 +834,64 @@ def resolved_tags_spec(rule, dyn):
     return out
 
 
-def expected_tags(jr, tr):
+def expected_tags(jr, tr, frules=None):
+    """frules: the generator's rule blocks (their 'tags' lists are the tags as WRITTEN, independent of how the
+    implementation split the `tags:` line); without them the implementation-parsed tags are used."""
     exp = set()
-    for r, c, dyn in zip(jr['rules'], tr['oracle']['cond'], tr['oracle']['dyn']):
+    src = frules if frules is not None and len(frules) == len(jr['rules']) else jr['rules']
+    for r, c, dyn in zip(src, tr['oracle']['cond'], tr['oracle']['dyn']):
         if c == 'T':
             exp |= resolved_tags_spec(r, dyn)
     return exp
+
+
+def mcs_of(n):
+    return None if (n is None or 'crash' in n) else [n['m'], n['c'], n['s']]
+
+
+def tags_of(n):
+    return None if (n is None or 'crash' in n) else sorted((n.get('info') or {}).get('tags', [])) if 'info' in n else sorted(n.get('tags', []))
+
+
+def judge_one_load(c, jr):
+    """Back-to-back classification in ONE load against each transaction classified alone in a fresh load.
+    Yields (txn index or None, mode, 'mcs'|'tags', detail)."""
+    out = []
+    for mode, ol in (jr.get('one_load') or {}).items():
+        for ti, n in enumerate(ol.get('seq', [])):
+            tr = jr['txns'][ti]
+            ref = tr['norm'] if c['kind'] == 'csv' else (tr.get('norm') or {}).get(mode)
+            if ref is None or 'crash' in ref or 'crash' in n:
+                continue
+            for what, a, b in (('mcs', mcs_of(ref), mcs_of(n)), ('tags', tags_of(ref), tags_of(n))):
+                if a != b:
+                    out.append((ti, mode, what, {
+                        'why': f'normalize_merchant ({mode}) gives transaction #{ti} a different result when it is classified after the '
+                               'preceding transactions of the same load than when it is classified alone',
+                        'alone': a, 'in_sequence': b, 'transaction': c['txns'][ti],
+                        'preceding_transactions': c['txns'][:ti]}))
+        if 'rows_error' in ol:
+            out.append((None, mode, 'mcs', {'why': 'parse_generic_csv failed on the generated statement', 'error': ol['rows_error']}))
+            continue
+        for k, row in enumerate(ol.get('rows', [])):
+            if 'crash' in row['ref']:
+                continue
+            g = row['got']
+            for what, a, b in (('mcs', mcs_of(row['ref']), [g['m'], g['c'], g['s']]), ('tags', tags_of(row['ref']), sorted(g['tags']))):
+                if a != b:
+                    out.append((None, mode, what, {
+                        'why': f'parse_generic_csv ({mode}): statement row #{k} carries a different result than normalize_merchant gives '
+                               'for that very row classified alone', 'row': row['txn'], 'alone': a, 'in_statement': b,
+                        'earlier_rows': [r['txn'] for r in ol['rows'][:k]]}))
+            if 'oracle' in row and not any_abort({'oracle': row['oracle']}):
+                exp = sorted(expected_tags(jr, row, c['file'].get('rules')))
+                if sorted(g['tags']) != exp and sorted(set(g['tags']) - {''}) == exp:
+                    continue
+                if sorted(g['tags']) != exp:
+                    out.append((None, mode, 'tags', {
+                        'why': f'parse_generic_csv ({mode}): the tags of statement row #{k} are not the union of the resolved tags of the rules '
+                               'matching THAT row', 'row': row['txn'], 'expected': exp, 'in_statement': sorted(g['tags'])}))
+    return out
 
 
 def legacy_direct(jr, t, tr):
